@@ -11,6 +11,7 @@ RULE = ("chains of 1e3 / 1e4 / 5e4 (thorough 2e5) sequential ops of mixed kinds 
         "be <= 2.3 (also for a single op with N operands: stack / concat, and N-term sums); untracked loops of 1e3-1e5 updates inside no_grad (plain, with the carried value combined directly with a parameter, through F.linear), inside retain_grads and from operands that do not require grad with the live-tensor count "
         "(WeakSet registry, after gc.collect()) sampled every 10% - it must not grow; weak references to operands of untracked results must "
         "die. distinct key = (scenario, size, op mix seed); non-trivial = size >= 1000")
+RULE += (' Added after the seeded rounds: detach()-separated segments, changing Python scalars, nested no_grad, backward() inside no_grad, matmul-only chains, dropout noise loops, roll-outs of a frozen model, a gradient argument that itself has 20000 recorded ops behind it, a bounded work probe (library source lines executed) on ladders of reused intermediates before the deep ladder is attempted, and (thorough only) CPU time at 1e5 / 4e5 ops.')
 ASSUMPTIONS = ["linearity is decided on counted Python calls, never on wall-clock time; the wall-clock watchdog only makes a run inconclusive",
                "thorough tier only: C-level super-linear work (invisible to call counts) is decided on CPU time (time.thread_time, gc disabled) of backward at 1e5 vs 4e5 ops; "
                "a ratio above 7 (linear: 4) is a violation only if a second independent measurement reproduces it",
